@@ -159,3 +159,9 @@ Definition dep4 (a b c d : R) (p : nat) : R := match p with 0%nat => a | 1%nat =
 Definition img1 (a b c d : R) : image nat := fun ch p => match ch with 0%nat => dep4 a b c d p | _ => 0%R end.
 Definition img3 (a0 b0 c0 d0 a1 b1 c1 d1 a2 b2 c2 d2 : R) : image nat :=
   fun ch p => match ch with 0%nat => dep4 a0 b0 c0 d0 p | 1%nat => dep4 a1 b1 c1 d1 p | 2%nat => dep4 a2 b2 c2 d2 p | _ => 0%R end.
+(* conv2d on the 2x2 image as an uninterpreted operator: `blur k p a b c d` is pixel p of the image
+   [[a, b], [c, d]] convolved with the normalised Gaussian kernel of integer sigma k *)
+Definition blurop (blur : nat -> nat -> R -> R -> R -> R -> R) (k : nat) (f : nat -> R) (p : nat) : R :=
+  blur k p (f 0%nat) (f 1%nat) (f 2%nat) (f 3%nat).
+Definition absdiff (i j : nat) : nat := (Nat.max i j - Nat.min i j)%nat.   (* int(|i-j| * blur_ratio), blur_ratio = 1 *)
+Definition pix4 : list nat := [0; 1; 2; 3]%nat.
